@@ -7,6 +7,11 @@ import json, os, re
 HERE = os.path.dirname(os.path.dirname(os.path.abspath(__file__)))
 PROPS = os.path.join(HERE, "lean", "SPProofs", "Properties")
 EXTRA = {
+    "C02": [("SPProofs.Pipeline.SeqMain", "SPModel.C02.sequences_iff_models", "full"),
+            ("SPProofs.Pipeline.SeqMain", "SPModel.C02.sequence_unique", "full"),
+            ("SPProofs.Pipeline.SeqMain", "SPModel.Pipeline.meaningAll_iff_seq", "full"),
+            ("SPProofs.Pipeline.SeqBasic", "SPModel.Pipeline.exists_seq_of_consistency", "full"),
+            ("SPProofs.Pipeline.SeqBasic", "SPModel.Pipeline.meaning_iff_seqMeaning", "full")],
     "C15": [("SPProofs.Misc.Implied", "SPModel.Implied.column_spec", "full"),
             ("SPProofs.Misc.Implied", "SPModel.Implied.column_length", "full")],
     # property -> [(module, theorem, status)]: theorems that live outside Properties/<id>.lean
